@@ -617,3 +617,62 @@ pub fn c14(x: &str, opts: &C14Opts, ctx: &mut Ctx) {
         ctx.nontrivial();
     }
 }
+
+// ---------------------------------------------------------------------------------------------
+// C04 — work bounds
+
+/// the number of conditional-directive passes is linear in the number of directive tokens
+pub fn c04_passes(x: &str, cfg: &Cfg, ctx: &mut Ctx) {
+    let ndir = r::scan(x).iter().filter(|t| matches!(t.kind, Kind::Conditional(_))).count() as u64;
+    pasfmt_core::verif::reset();
+    let out = ctx.fmt(cfg, x);
+    let c = pasfmt_core::verif::snapshot();
+    if c.parser_passes > ndir + 1 {
+        ctx.fail(
+            "C04",
+            "passes-not-linear-in-directives",
+            format!("{} passes for {} conditional directives", c.parser_passes, ndir),
+            case_fmt("c04passes", x, cfg),
+        );
+    }
+    if out != x {
+        ctx.nontrivial();
+    }
+}
+
+/// deterministic work counters stay below c*n^3 (c fixed from the small sizes)
+pub fn c04_scaling(kind: usize, cfg: &Cfg, sizes: &[usize], ctx: &mut Ctx) {
+    let mut base: Option<(f64, f64)> = None; // work per n^3 at the calibration sizes (parser, wrapper)
+    for (k, &n) in sizes.iter().enumerate() {
+        if k > 0 {
+            ctx.sub_eval();
+        }
+        let x = crate::alphabet::scaling_input(kind, n);
+        pasfmt_core::verif::reset();
+        let out = ctx.fmt(cfg, &x);
+        let c = pasfmt_core::verif::snapshot();
+        let parser = (c.parser_lookups + c.parser_tokens) as f64;
+        let wrapper = c.wrapper_nodes as f64;
+        let cube = (n as f64).powi(3).max(1.0);
+        ctx.nontrivial();
+        let _ = out;
+        if n <= 8 {
+            let b = base.get_or_insert((0.0, 0.0));
+            b.0 = b.0.max(parser / cube).max(parser / 8.0f64.powi(3));
+            b.1 = b.1.max(wrapper / cube).max(wrapper / 8.0f64.powi(3));
+        } else if let Some((bp, bw)) = base {
+            // generous constant: 64 x the largest per-n^3 cost seen at n <= 8, plus a linear floor
+            let limit_p = 64.0 * bp * cube + 100_000.0 * n as f64;
+            let limit_w = 64.0 * bw * cube + 100_000.0 * n as f64;
+            if parser > limit_p || wrapper > limit_w {
+                ctx.fail(
+                    "C04",
+                    "work-not-polynomial",
+                    format!("construct {kind} at n={n}: parser work {parser}, wrapper nodes {wrapper}; cubic limits {limit_p:.0} / {limit_w:.0}"),
+                    json!({"oracle": "c04scaling", "kind": kind, "n": n, "cfg": cfg}),
+                );
+                return;
+            }
+        }
+    }
+}
